@@ -126,7 +126,14 @@ type vScriptEv struct {
 //
 //	several frames arrives while an election is still open, and a later root looks up the vote of
 //	its lower frame slot
+//
+// 11 sparse:   a fixed 7-event DAG over 3 validators found by random search: events with few parents, so that a merely
+//
+//	built candidate can touch exactly one older event that the real event does not reach
 func vScript(kind, V, rounds int, seed uint32) []vScriptEv {
+	if kind == 11 {
+		return []vScriptEv{{0, -1, nil}, {0, 0, nil}, {1, -1, nil}, {2, -1, []int{1}}, {0, 1, []int{2}}, {0, 4, []int{3}}, {1, 2, []int{5}}}
+	}
 	if kind == 10 {
 		return []vScriptEv{{3, -1, nil}, {1, -1, []int{0}}, {2, -1, []int{1}}, {0, -1, []int{1, 2, 0}}, {1, 1, []int{0}},
 			{3, 0, []int{3, 4, 2}}, {0, 3, []int{4, 2, 5}}, {1, 4, []int{6, 2, 5}}, {0, 6, []int{7, 2}}, {2, 2, []int{8, 7, 5}},
